@@ -147,7 +147,10 @@ def rule_no_file_destruction(ctx):
 
 from .c14 import rule_typestate as rule_connect_typestate  # noqa: E402  (re-attaching a file must not disturb what it holds)
 
+from .c13 import rule_no_tx_mapping  # noqa: E402  (a COMMIT the engine rejected must not be reported as committed)
+
 RULES = [
+    ("C18.h", rule_no_tx_mapping, ("quick", "thorough")),
     ("C18.g", rule_no_file_destruction, ("quick", "thorough")),
     ("C18.f", rule_connect_typestate, ("quick", "thorough")),
     ("C18.e", rule_no_implicit_tx_calls, ("quick", "thorough")),
